@@ -11,6 +11,7 @@ run-time data).  Decided statically:
   R-C11-serde-conversion  serde_yaml / serde_json -> Value: variant table, and every map entry / list element of the source is
                           inserted exactly once (none dropped, none duplicated)
 """
+import re
 from engine import ai, mirlib as M
 from engine import statusmon as S
 from engine.statusmon import Mon
@@ -79,25 +80,41 @@ def tag_tables(ctx, cr):
         ctx.ob(rule, "%s:long-form:%s" % (rule, k), v == exp, "!%s maps to %r, expected %r" % (k, v, exp), fn=fm)
     for t in DOCUMENTED:
         ctx.ob(rule, "%s:documented:%s" % (rule, t), t in mp and (t in sg or t in sq), "documented short form !%s is missing from the tables" % t, fn=fm)
-    # the libyaml loader consults ONE table per payload form (scalar -> SINGLE_VALUE_FUNC_REF, sequence -> SEQUENCE_VALUE_FUNC_REF) while the
-    # serde path accepts a tag found in either: they agree on every documented (tag, form) pair only if each form's table lists the tag
-    for t in SCALAR_FORM:
-        ctx.ob(rule, "%s:scalar-form:%s" % (rule, t), t in sg, "`!%s <scalar>` is documented but %s is not in SINGLE_VALUE_FUNC_REF: the validate loader keeps the bare scalar while the test/API loader expands it" % (t, t), fn=fs)
-    for t in SEQUENCE_FORM:
-        ctx.ob(rule, "%s:sequence-form:%s" % (rule, t), t in sq, "`!%s [..]` is documented but %s is not in SEQUENCE_VALUE_FUNC_REF: the validate loader keeps the bare list while the test/API loader expands it" % (t, t), fn=fq)
-    # both loaders go through the same tables
-    users = {"rules::libyaml::loader::handle_single_value_func_ref": ("SINGLE_VALUE_FUNC_REF",),
-             "rules::libyaml::loader::handle_sequence_value_func_ref": ("SEQUENCE_VALUE_FUNC_REF",),
-             "rules::values::handle_tagged_value": ("SINGLE_VALUE_FUNC_REF", "SEQUENCE_VALUE_FUNC_REF")}
-    for k, statics in users.items():
+    # both loaders take the SAME decision "is this tag an intrinsic short form": each decision point consults the same set of tables
+    # (directly or through a local helper) and translates with short_form_to_long.  A loader that looks at one table only loads
+    # `!Join x` / `!Ref [p, q]` as the bare payload where the other loader expands it.
+    users = ["rules::libyaml::loader::handle_single_value_func_ref", "rules::libyaml::loader::handle_sequence_value_func_ref", "rules::values::handle_tagged_value"]
+    consulted = {}
+    for k in users:
         f = cr.fns.get(k)
         if not f:
             ctx.lost(rule, "%s:user:%s" % (rule, k), "function missing")
             continue
-        called = [t["fn"].get("key", "") for bi, t in M.iter_calls(f)]
-        ok = "rules::short_form_to_long" in called and all(any(c == "<rules::%s as std::ops::Deref>::deref" % s for c in called) for s in statics)
-        ctx.ob(rule, "%s:user:%s" % (rule, k.split("::")[-1]), ok, "must test membership in %s and translate with short_form_to_long (calls: %s)" % (
-            statics, sorted(set(c.split("::")[-1] for c in called))[:8]), fn=f)
+        tabs, translates = set(), False
+        work, seenf = [k], set()
+        while work:
+            kk = work.pop()
+            if kk in seenf or kk not in cr.fns:
+                continue
+            seenf.add(kk)
+            for bi, t in M.iter_calls(cr.fns[kk]):
+                c = t["fn"].get("key", "")
+                m_ = re.match(r"<rules::(\w+_FUNC_REF) as std::ops::Deref>::deref$", c)
+                if m_:
+                    tabs.add(m_.group(1))
+                if c == "rules::short_form_to_long":
+                    translates = True
+                if t["fn"].get("local") and c.startswith("rules::") and len(seenf) < 6 and ("func_ref" in c or "closure" in c):
+                    work.append(c)
+        consulted[k] = tabs
+        ctx.ob(rule, "%s:user:%s:translates" % (rule, k.split("::")[-1]), translates, "must translate the tag with short_form_to_long", fn=f)
+    sets = set(frozenset(v) for v in consulted.values())
+    for k, tabs in sorted(consulted.items()):
+        union = set().union(*consulted.values())
+        ctx.ob(rule, "%s:user:%s:tables" % (rule, k.split("::")[-1]), tabs == union and len(union) >= 2,
+               "%s decides on %s while the loaders together use %s: a tag listed only in the other table is expanded by one loader and left as its bare payload by this one" % (k.split("::")[-1], sorted(tabs), sorted(union))
+               if tabs != union else "consults %s like the other decision points" % sorted(tabs), fn=cr.fns.get(k),
+               sample={"function": k, "tables": sorted(tabs)} if k.endswith("handle_tagged_value") else None)
     sf = cr.fns.get("rules::short_form_to_long")
     if sf:
         called = [t["fn"].get("key", "") for bi, t in M.iter_calls(sf)]
